@@ -8,7 +8,7 @@ HERE = os.path.dirname(os.path.dirname(os.path.abspath(__file__)))
 # first encounter: "first" = reported by the rule as it stood; anything else = what had to change
 FIRST = {
     "C15-51": "first (C15.R6: the scale converted back is not the transposed one)",
-    "C09-51": "C04.R5 at once; **C09 missed**; the re-wrap clause of C04.R5 (detach / clone / move of the packed payload keep bits, size, stride) is now composed into C09.R7 - deepcopy and Module.to of a frozen low-bit weight run exactly these handlers",
+    "C09-51": "C04.R5 at once; **C09 missed**; the re-wrap clause of C04.R5 (detach / clone / move of the packed payload keep bits, size, stride) is now composed into C09.R7 and C06.R1 (`report.TagFilteredAlias`) - deepcopy and Module.to of a frozen low-bit weight run exactly these handlers",
     "C03-51": "**undecided** (exit 2, C03.R1/R2 name the numerator `base.abs().flatten(0, 1).amax(dim=0, keepdim=True).reshape(..)` as outside the reduction vocabulary): the rule folds amax/amin dims but not shapes through flatten/reshape; no violation is claimed for a construct it cannot evaluate, and the run does not pass; **then decided**: shape domain `scales.shape_eval` added to C03.R1/R2",
     "C03-2": "**missed at first**; scale-floor rule added (C03.R3, also C12.R5 / C02.R6)",
     "C02-1": "**missed at first**; scale-floor clause added to C02.R6",
